@@ -191,3 +191,60 @@ Theorem descr_const_fields addr n rt :
   resolve rt (d_ptr (descr_const addr n)) = Some addr /\ resolve rt (d_aligned (descr_const addr n)) = Some addr /\
   d_offset (descr_const addr n) = 0 /\ d_sizes (descr_const addr n) = seq 0 n.
 Proof. repeat split. Qed.
+
+(* ---- several memory spaces: each memory behaves like the single-memory allocator on its own requests --- *)
+Lemma nth_set_nth_same {A} (dflt : A) : forall n x l, (n < length l)%nat -> nth n (set_nth n x l) dflt = x.
+Proof. induction n as [|n IH]; intros x [|h t] H; cbn [length] in H; try lia; cbn [set_nth nth]; [reflexivity|apply IH; lia]. Qed.
+Lemma nth_set_nth_other {A} (dflt : A) : forall n n' x l, n <> n' -> nth n' (set_nth n x l) dflt = nth n' l dflt.
+Proof.
+  induction n as [|n IH]; intros [|n'] x [|h t] Hne; cbn [set_nth nth]; try reflexivity; try lia. apply IH. lia.
+Qed.
+Lemma set_nth_length {A} : forall n (x : A) l, length (set_nth n x l) = length l.
+Proof. induction n as [|n IH]; intros x [|h t]; cbn [set_nth length]; auto. Qed.
+
+Definition cur_of (mems : list (Z * Z)) (curs : list (option Z)) (m : nat) : Z :=
+  match nth m curs None with Some c => c | None => fst (nth m mems (0, 0)) end.
+Definition reqs_of (m : nat) (rs : list mreq) : list req := map snd (filter (fun r => Nat.eqb (fst r) m) rs).
+Definition addrs_of (m : nat) (rs : list mreq) (l : list Z) : list Z :=
+  map snd (filter (fun p => Nat.eqb (fst (fst p)) m) (combine rs l)).
+
+Theorem static_multi_proj mems : forall rs curs l m,
+  length curs = length mems -> Forall (fun r => (fst r < length mems)%nat) rs ->
+  static_multi_from mems curs rs = AOk l ->
+  static_from (fst (nth m mems (0, 0))) (snd (nth m mems (0, 0))) (cur_of mems curs m) (reqs_of m rs) = AOk (addrs_of m rs l).
+Proof.
+  induction rs as [|[m0 r] rs IH]; intros curs l m Hlen Hin H; cbn [static_multi_from] in H.
+  - inversion H; subst. reflexivity.
+  - inversion Hin as [|? ? Hm0 Hrest]; subst. cbn [fst] in Hm0.
+    destruct (nth m0 mems (0, 0)) as [start cap] eqn:Em.
+    destruct (static_step start cap (match nth m0 curs None with Some c => c | None => start end) r) as [[a next]|e] eqn:Es; [|discriminate].
+    destruct (static_multi_from mems (set_nth m0 (Some next) curs) rs) as [l'|e] eqn:Er; [|discriminate].
+    inversion H; subst. clear H.
+    specialize (IH (set_nth m0 (Some next) curs) l' m ltac:(rewrite set_nth_length; exact Hlen) Hrest Er).
+    unfold reqs_of, addrs_of. cbn [filter combine fst snd map].
+    destruct (Nat.eqb m0 m) eqn:E.
+    + apply Nat.eqb_eq in E. subst m0. cbn [map static_from]. rewrite Em. cbn [fst snd].
+      unfold cur_of at 1. rewrite Em. cbn [fst]. rewrite Es.
+      unfold cur_of in IH. rewrite nth_set_nth_same in IH by lia. fold (reqs_of m rs). fold (addrs_of m rs l').
+      rewrite Em in IH. cbn [fst snd] in IH. rewrite IH. reflexivity.
+    + apply Nat.eqb_neq in E. unfold cur_of in *. rewrite nth_set_nth_other in IH by exact E. exact IH.
+Qed.
+
+(* consequently StaticAllocs over several memory spaces places the buffers of every memory space m in
+   aligned, in-window, pairwise disjoint ranges of that space *)
+Corollary static_multi_disjoint mems rs l m :
+  Forall (fun r => (fst r < length mems)%nat) rs -> Forall req_ok (reqs_of m rs) ->
+  static_multi mems rs = AOk l ->
+  let start := fst (nth m mems (0, 0)) in let cap := snd (nth m mems (0, 0)) in
+  length (addrs_of m rs l) = length (reqs_of m rs) /\
+  forall i ai ri, nth_error (addrs_of m rs l) i = Some ai -> nth_error (reqs_of m rs) i = Some ri ->
+    start <= ai /\ ai + rsize ri <= start + cap /\ ai mod ralign ri = 0 /\
+    forall j aj, (i < j)%nat -> nth_error (addrs_of m rs l) j = Some aj -> ai + rsize ri <= aj.
+Proof.
+  intros Hin Hok H start cap. unfold static_multi in H.
+  pose proof (static_multi_proj mems rs _ l m ltac:(rewrite map_length; reflexivity) Hin H) as Hp.
+  assert (Ec : cur_of mems (map (fun _ => None) mems) m = start).
+  { unfold cur_of. replace (nth m (map (fun _ : Z * Z => @None Z) mems) None) with (@None Z); [reflexivity|].
+    clear. revert m. induction mems as [|x mems IH]; intros [|m]; cbn [map nth]; auto. }
+  rewrite Ec in Hp. apply (static_disjoint start cap _ _ Hok Hp).
+Qed.
